@@ -213,3 +213,22 @@ for qual, one, (S, B, I, F, N) in (
         ],
         raises={"ValueError": "not (self._flags & %d)" % S},
     )
+
+# ---------------------------------------------------------------- Option.set_default (public: the default can be set again)
+# C07 (normal form of an option): a value-less option has no default (setting one is refused), the default of a
+# multi-valued option is always a list - an empty one when it is reset - and any other option keeps what it is given.
+SET_DEFAULT_Q = M_OPT + ":Option.set_default"
+c = R.contract(
+    SET_DEFAULT_Q, variant="public",  # (a named case: the constructor keeps executing the method itself)
+    params={"default": "none|str|int|list[str]"},
+    ensures=[
+        "not (self._flags & 4)",
+        "implies(bool(self._flags & 32), isinstance(self._default, list))",
+        "implies(bool(self._flags & 32) and default is None, len(self._default) == 0)",
+        "implies(not (self._flags & 32), (self._default is None) == (default is None))",
+    ],
+    raises={"ValueError": "bool(self._flags & 4) or (bool(self._flags & 32) and default is not None and not isinstance(default, list))"},
+    modifies=["self._default"],
+)
+c.defaults = {"default": None}
+SET_DEFAULT = {"qual": SET_DEFAULT_Q, "tag": "public"}
